@@ -40,4 +40,16 @@ theorem mid_slide_limit : StackLimit mid ⟨1,0,7,1⟩ := by
   cases h
   decide +kernel
 
+/-- two orders of the same four placements after the opening a1 e5: (b1 b2 c1 c2) and (c1 c2 b1 b2) -/
+def trA : List Move := [⟨0,0,2,0⟩, ⟨4,4,2,0⟩, ⟨1,0,2,0⟩, ⟨1,1,2,0⟩, ⟨2,0,2,0⟩, ⟨2,1,2,0⟩]
+def trB : List Move := [⟨0,0,2,0⟩, ⟨4,4,2,0⟩, ⟨2,0,2,0⟩, ⟨2,1,2,0⟩, ⟨1,0,2,0⟩, ⟨1,1,2,0⟩]
+def qa : Pos := okOr (start5.applyAll basis trA)
+def qb : Pos := okOr (start5.applyAll basis trB)
+theorem qa_ok : start5.applyAll basis trA = .ok qa := by rfl
+theorem qb_ok : start5.applyAll basis trB = .ok qb := by rfl
+theorem qa_qb_same : (Spec.abs qa).squares = (Spec.abs qb).squares ∧ qa.toMove = qb.toMove := by decide +kernel
+theorem tr_places : (∀ m ∈ trA, ∃ k, m.type = placeCode k) ∧ (∀ m ∈ trB, ∃ k, m.type = placeCode k) := by
+  constructor <;> (intro m hm; simp only [trA, trB, List.mem_cons, List.mem_nil_iff, or_false] at hm
+                   rcases hm with rfl | rfl | rfl | rfl | rfl | rfl <;> exact ⟨.flat, rfl⟩)
+
 end Tak.Ex
